@@ -6,6 +6,8 @@ package main
 // Groups: "apply"  (oracle only): build pair -> patch (plain and optimized) -> the old build is
 //                  damaged -> fresh apply with the old-build pool wrapped by pwr.NewSafeKeeper;
 //                  oracle: error, or output tree == new build; pristine old build: no error.
+//                  The paths of the old build are part of the input: some pairs (and some skread
+//                  cases) use paths that differ only by case, directory, a blank ... (c09NameFamilies).
 //         "skread" (oracle + model): a pwr.NewSafeKeeper pool over in-memory files (signed
 //                  content vs actual content) driven by the three consumers' read patterns
 //                  (fresh bowl Transpose, wsync.ApplySingle block range, lrufile.getChunk - emulated
@@ -201,11 +203,16 @@ func c09Content(r *lib.Rng, size int) []byte { return lib.GenContent(r, size) }
 // targeted pair: whole-file copies, block-range reuse and (after optimization) bsdiff series
 // on files of exactly k*bs bytes, k*bs+r bytes, a small file and an empty one
 func c09Targeted(r *lib.Rng) c09Pair {
+	return c09TargetedNamed(r, "targeted", []string{"exact.bin", "a/tail.bin", "small.bin", "a/empty.bin"})
+}
+
+// c09TargetedNamed: the targeted pair over four given old paths (k*bs bytes, k*bs+r bytes, small,
+// empty - in this order)
+func c09TargetedNamed(r *lib.Rng, pairName string, names []string) c09Pair {
 	bs := lib.BS
 	k := r.Range(1, 3)
 	sizes := []int{k * bs, r.Range(1, 3)*bs + []int{1, 100, bs - 1, bs / 2}[r.Intn(4)], []int{1, 100, 105, 4000}[r.Intn(4)], 0}
 	old := &lib.Build{}
-	names := []string{"exact.bin", "a/tail.bin", "small.bin", "a/empty.bin"}
 	for i, s := range sizes {
 		old.Put(lib.Entry{Path: names[i], Kind: "file", Data: r.Bytes(s)})
 	}
@@ -256,7 +263,7 @@ func c09Targeted(r *lib.Rng) c09Pair {
 		nw.Put(lib.Entry{Path: "stitched.bin", Kind: "file", Data: d})
 		rel = append(rel, "stitch")
 	}
-	return c09Pair{name: "targeted", old: old, nw: nw, rel: rel}
+	return c09Pair{name: pairName, old: old, nw: nw, rel: rel}
 }
 
 // c09SeriesPair: files of several blocks that the optimized patch rebuilds with a bsdiff series,
@@ -324,6 +331,160 @@ func c09SeriesPair(r *lib.Rng) (c09Pair, []c09Damage) {
 		rel = append(rel, "same:kept.bin")
 	}
 	return c09Pair{name: "series", old: old, nw: nw, rel: rel}, dmg
+}
+
+// ---------------------------------------------------------------- paths of the old build
+
+// "For all build pairs": the paths of a build are part of the input.  The safekeeper finds the
+// hashes of a file through the path -> file index table of the signature (pwr/hashinfo.go), the
+// pools open files by path, the bowl creates them by path.  A table keyed by anything coarser
+// than the exact path (case folded, base name, trimmed, normalized, cut to a length, separators
+// rewritten ...) confuses two files of the SAME build; nothing goes wrong as long as every path of
+// the build differs from the others in an "ordinary" way.  c09NameFamilies lists sets of paths
+// (all legal on a case-sensitive filesystem, all valid UTF-8) whose members differ only in the way
+// the family is named after.
+type c09Names struct {
+	family string
+	names  []string
+}
+
+func c09NameFamilies(r *lib.Rng) []c09Names {
+	stem := []string{"Data", "Level", "Main"}[r.Intn(3)]
+	ext := []string{".bin", ".pak", ".Dat"}[r.Intn(3)]
+	lo, up := strings.ToLower(stem), strings.ToUpper(stem)
+	long := strings.Repeat("n", 60) + strings.Repeat("m", 140) // 200 bytes, NAME_MAX is 255
+	return []c09Names{
+		// the same path up to letter case, in the file name or in a directory
+		{"case", []string{"assets/" + stem + ext, "assets/" + lo + strings.ToLower(ext), "assets/" + up + strings.ToUpper(ext), "Assets/" + stem + ext, "assets/" + lo + ext + "x", "ASSETS/sub/" + lo + ext, "assets/sub/" + lo + ext}},
+		// the same base name in different directories
+		{"basename", []string{"a/" + lo + ext, "b/" + lo + ext, lo + ext, "a/b/" + lo + ext, "b/a/" + lo + ext, "a/a/" + lo + ext}},
+		// one path a prefix / suffix of the other
+		{"affix", []string{lo, lo + ext, lo + ext + ".bak", lo + ext[:len(ext)-1], "x" + lo + ext, lo + ext + "2", "sub/" + lo, "sub/" + lo + ext}},
+		// blanks and dots at the ends and inside
+		{"blank", []string{lo + ext, lo + ext + " ", " " + lo + ext, lo + ext + ".", lo + " " + ext, lo + "." + ext, "d/" + lo + ext, "d /" + lo + ext}},
+		// composed / decomposed / other-case / unaccented / look-alike letters
+		{"unicode", []string{"caf\u00e9" + ext, "cafe\u0301" + ext, "CAF\u00c9" + ext, "cafe" + ext, "caf\u00e8" + ext, "\uff43afe" + ext, "stra\u00dfe" + ext, "strasse" + ext}},
+		// characters that are separators elsewhere, or that stand in for one
+		{"separator", []string{"a/b" + ext, "a\\b" + ext, "a_b" + ext, "a b" + ext, "ab" + ext, "a-b/c" + ext, "a/b-c" + ext, "a:b" + ext}},
+		// long names that differ only at one end
+		{"long", []string{"x" + long, long + "x", long + "y", "y" + long, long, long[1:], "l/" + long + "x", "l/" + long + "y"}},
+		// names that are the same number
+		{"numeric", []string{"f1" + ext, "f01" + ext, "f10" + ext, "f1.0" + ext, "f+1" + ext, "f\uff11" + ext, "f1" + ext + "0"}},
+	}
+}
+
+var c09ProbeCache = map[string]bool{}
+
+// c09ProbeNames: does the scratch filesystem keep these paths apart, exactly as spelled?  (A
+// filesystem that folds case or normalizes names cannot hold such a build; the family is then
+// left out and the evidence shows no case of its class.)
+func c09ProbeNames(tmp string, names []string) bool {
+	key := strings.Join(names, "\x00")
+	if v, ok := c09ProbeCache[key]; ok {
+		return v
+	}
+	dir := filepath.Join(tmp, "c09-probe")
+	defer removeAll(dir)
+	ok := true
+	for i, n := range names {
+		if err := c09WriteFile(dir, n, []byte{byte(i)}); err != nil {
+			ok = false
+		}
+	}
+	if ok {
+		got := map[string]bool{}
+		_ = filepath.Walk(dir, func(p string, info os.FileInfo, err error) error {
+			if err == nil && info.Mode().IsRegular() {
+				rel, _ := filepath.Rel(dir, p)
+				got[filepath.ToSlash(rel)] = true
+			}
+			return nil
+		})
+		ok = len(got) == len(names)
+		for i, n := range names {
+			b, err := os.ReadFile(filepath.Join(dir, filepath.FromSlash(n)))
+			if !got[n] || err != nil || len(b) != 1 || b[0] != byte(i) {
+				ok = false
+			}
+		}
+	}
+	c09ProbeCache[key] = ok
+	return ok
+}
+
+// c09DrawNames: n paths of one family (members in random order), "" if the scratch filesystem
+// cannot hold any of the families
+func (c *Ctx) c09DrawNames(r *lib.Rng, n int) (string, []string) {
+	fams := c09NameFamilies(r)
+	for try := 0; try < 4; try++ {
+		f := fams[r.Intn(len(fams))]
+		names := append([]string(nil), f.names...)
+		for i := len(names) - 1; i > 0; i-- {
+			j := r.Intn(i + 1)
+			names[i], names[j] = names[j], names[i]
+		}
+		names = names[:n]
+		if c09ProbeNames(c.Tmp, names) {
+			return f.family, names
+		}
+	}
+	return "", nil
+}
+
+// c09NamedPair: the targeted pair (whole-file copies, block ranges, bsdiff series once optimized)
+// over four old paths of one family; sometimes two of them trade contents in the new build
+func c09NamedPair(r *lib.Rng, family string, names []string) c09Pair {
+	pr := c09TargetedNamed(r, "paths/"+family, names)
+	if a, b := pr.nw.Get(names[0]), pr.nw.Get(names[1]); a != nil && b != nil && r.Chance(1, 3) {
+		a.Data, b.Data = b.Data, a.Data
+		pr.rel = append(pr.rel, "swap:"+names[0]+"<->"+names[1])
+	}
+	return pr
+}
+
+// c09AllNamesPair: one old build holding every member of every family (distinct contents, sizes
+// of several blocks / one block / small / empty in turn); in the new build one member per family
+// is edited, one moved, two trade contents, the others stay.  Run pristine on every run.
+func (c *Ctx) c09AllNamesPair() c09Pair {
+	r := lib.NewRng(9091)
+	bs := lib.BS
+	old, nw := &lib.Build{}, &lib.Build{}
+	var rel []string
+	seen := map[string]bool{}
+	for _, f := range c09NameFamilies(lib.NewRng(1)) {
+		if !c09ProbeNames(c.Tmp, f.names) {
+			continue
+		}
+		sizes := []int{bs + 100, 100, 4000, bs, 0, 1, 2*bs + 1, 70000}
+		var mine []string
+		for i, n := range f.names {
+			if seen[n] {
+				continue
+			}
+			seen[n] = true
+			mine = append(mine, n)
+			old.Put(lib.Entry{Path: n, Kind: "file", Data: r.Bytes(sizes[i%len(sizes)])})
+		}
+		for i, n := range mine {
+			d := old.Get(n).Data
+			switch {
+			case i == 0 && len(d) > 0:
+				e := append([]byte(nil), d...)
+				e[len(e)/2] ^= 0xff
+				nw.Put(lib.Entry{Path: n, Kind: "file", Data: e})
+			case i == 1:
+				nw.Put(lib.Entry{Path: "moved/" + f.family + ".bin", Kind: "file", Data: d})
+			case i == 2 && len(mine) > 3:
+				nw.Put(lib.Entry{Path: n, Kind: "file", Data: old.Get(mine[3]).Data})
+			case i == 3:
+				nw.Put(lib.Entry{Path: n, Kind: "file", Data: old.Get(mine[2]).Data})
+			default:
+				nw.Put(lib.Entry{Path: n, Kind: "file", Data: d})
+			}
+		}
+		rel = append(rel, "paths/"+f.family)
+	}
+	return c09Pair{name: "corpus/confusable-paths", old: old, nw: nw, rel: rel}
 }
 
 // the failing inputs of DESIGN section 7 (#4, #5, #6) as fixed corpus pairs with fixed damages
@@ -827,7 +988,10 @@ func (lr *c09LoadRecorder) Read(p []byte) (int, error) {
 	return n, err
 }
 
-type c09File struct{ Signed, Actual []byte }
+type c09File struct {
+	Signed, Actual []byte
+	Path           string // path in the signed container ("" = f<index>)
+}
 
 // ideal result of a step on the signed content
 func c09Ideal(signed []byte, s c09Step) []byte {
@@ -882,6 +1046,11 @@ func (c *Ctx) c09Drive(files []c09File, steps []c09Step, tag string) (oracle str
 		signed = append(signed, f.Signed)
 	}
 	sp := lib.NewMemPool(signed)
+	for i, f := range files {
+		if f.Path != "" {
+			sp.Container.Files[i].Path = f.Path
+		}
+	}
 	hashes, err := pwr.ComputeSignature(context.Background(), sp.Container, sp, lib.Quiet)
 	if err != nil {
 		return "", err
@@ -1080,7 +1249,7 @@ func c09GenFile(r *lib.Rng) (c09File, string) {
 	size := c09Sizes[r.Intn(len(c09Sizes))]
 	signed := structuredContent(r, size)
 	if r.Chance(1, 4) {
-		return c09File{signed, signed}, "pristine"
+		return c09File{Signed: signed, Actual: signed}, "pristine"
 	}
 	ds := c09Damages(r, "f", size, &rdUsage{Whole: true})
 	var cand []c09Damage
@@ -1103,7 +1272,7 @@ func c09GenFile(r *lib.Rng) (c09File, string) {
 	} else {
 		actual, _ = d.apply(r, signed)
 	}
-	return c09File{signed, actual}, d.Class
+	return c09File{Signed: signed, Actual: actual}, d.Class
 }
 
 func c09GenSteps(r *lib.Rng, files []c09File) []c09Step {
@@ -1157,7 +1326,11 @@ func (c *Ctx) c09EmitSkread(files []c09File, steps []c09Step, class string, tag 
 	damaged := false
 	for _, f := range files {
 		fs = append(fs, "("+lib.ToRle(f.Signed).Coq()+", "+lib.ToRle(f.Actual).Coq()+")")
-		inFiles = append(inFiles, map[string]interface{}{"signed": lib.ToRle(f.Signed).String(), "actual": lib.ToRle(f.Actual).String()})
+		inf := map[string]interface{}{"signed": lib.ToRle(f.Signed).String(), "actual": lib.ToRle(f.Actual).String()}
+		if f.Path != "" {
+			inf["path"] = f.Path
+		}
+		inFiles = append(inFiles, inf)
 		damaged = damaged || !bytes.Equal(f.Signed, f.Actual)
 	}
 	var inSteps []string
@@ -1207,23 +1380,47 @@ func runC09(c *Ctx) error {
 		files []c09File
 		steps []c09Step
 	}{
-		{"corpus/pristine-k*bs-copy", []c09File{{exact, exact}}, []c09Step{{Kind: "copy"}}},
-		{"corpus/pristine-empty-copy", []c09File{{nil, nil}}, []c09Step{{Kind: "copy"}, {Kind: "chunks", Cis: []int64{0, 1}}}},
-		{"corpus/extended-inside-last-block-copy", []c09File{{small, ext}}, []c09Step{{Kind: "copy"}}},
-		{"corpus/emptied-copy", []c09File{{small, nil}}, []c09Step{{Kind: "copy"}}},
-		{"corpus/emptied-range", []c09File{{small, nil}}, []c09Step{{Kind: "range", Blk: 0, Span: 1}}},
-		{"corpus/cut-at-boundary-copy", []c09File{{tail, tail[:bs]}}, []c09Step{{Kind: "copy"}}},
-		{"corpus/cut-at-boundary-range", []c09File{{tail, tail[:bs]}}, []c09Step{{Kind: "range", Blk: 0, Span: 2}}},
-		{"corpus/cut-at-boundary-chunks", []c09File{{tail, tail[:bs]}}, []c09Step{{Kind: "chunks", Cis: []int64{1, 2, 3}}}},
-		{"corpus/same-file-copied-twice", []c09File{{tail, tail}}, []c09Step{{Kind: "copy"}, {Kind: "copy"}, {Kind: "range", Blk: 1, Span: 1}, {Kind: "copy"}}},
+		{"corpus/pristine-k*bs-copy", []c09File{{Signed: exact, Actual: exact}}, []c09Step{{Kind: "copy"}}},
+		{"corpus/pristine-empty-copy", []c09File{{Signed: nil, Actual: nil}}, []c09Step{{Kind: "copy"}, {Kind: "chunks", Cis: []int64{0, 1}}}},
+		{"corpus/extended-inside-last-block-copy", []c09File{{Signed: small, Actual: ext}}, []c09Step{{Kind: "copy"}}},
+		{"corpus/emptied-copy", []c09File{{Signed: small, Actual: nil}}, []c09Step{{Kind: "copy"}}},
+		{"corpus/emptied-range", []c09File{{Signed: small, Actual: nil}}, []c09Step{{Kind: "range", Blk: 0, Span: 1}}},
+		{"corpus/cut-at-boundary-copy", []c09File{{Signed: tail, Actual: tail[:bs]}}, []c09Step{{Kind: "copy"}}},
+		{"corpus/cut-at-boundary-range", []c09File{{Signed: tail, Actual: tail[:bs]}}, []c09Step{{Kind: "range", Blk: 0, Span: 2}}},
+		{"corpus/cut-at-boundary-chunks", []c09File{{Signed: tail, Actual: tail[:bs]}}, []c09Step{{Kind: "chunks", Cis: []int64{1, 2, 3}}}},
+		{"corpus/same-file-copied-twice", []c09File{{Signed: tail, Actual: tail}}, []c09Step{{Kind: "copy"}, {Kind: "copy"}, {Kind: "range", Blk: 1, Span: 1}, {Kind: "copy"}}},
 		// a bsdiff series whose 32 KiB reads straddle the chunks of the read cache (the new file lost
 		// its first 100 bytes): damage in a block that is only ever entered in the middle of a read
-		{"corpus/bspatch-shifted-run-pristine", []c09File{{long, long}}, []c09Step{c09RunFrom(len(long), 100, 0)}},
-		{"corpus/bspatch-shifted-run-flip-inner-block", []c09File{{long, flipAt(long, bs+40000)}}, []c09Step{c09RunFrom(len(long), 100, 0)}},
-		{"corpus/bspatch-shifted-run-flip-last-block", []c09File{{long, flipAt(long, len(long)-1)}}, []c09Step{c09RunFrom(len(long), c09Chunk+1, 0)}},
-		{"corpus/bspatch-shifted-run-cut-at-boundary", []c09File{{long, long[:2*bs]}}, []c09Step{c09RunFrom(len(long), 100, 0)}},
-		{"corpus/bspatch-aligned-run-flip-inner-block", []c09File{{long, flipAt(long, 2*bs+10)}}, []c09Step{c09RunFrom(len(long), 0, 0)}},
-		{"corpus/bspatch-small-cache-flip-inner-block", []c09File{{long, flipAt(long, 2*bs+10)}, {tail, tail}}, []c09Step{onFile(1, c09RunFrom(len(tail), 7, 2)), c09RunFrom(len(long), 100, 2), {Kind: "copy", File: 1}}},
+		{"corpus/bspatch-shifted-run-pristine", []c09File{{Signed: long, Actual: long}}, []c09Step{c09RunFrom(len(long), 100, 0)}},
+		{"corpus/bspatch-shifted-run-flip-inner-block", []c09File{{Signed: long, Actual: flipAt(long, bs+40000)}}, []c09Step{c09RunFrom(len(long), 100, 0)}},
+		{"corpus/bspatch-shifted-run-flip-last-block", []c09File{{Signed: long, Actual: flipAt(long, len(long)-1)}}, []c09Step{c09RunFrom(len(long), c09Chunk+1, 0)}},
+		{"corpus/bspatch-shifted-run-cut-at-boundary", []c09File{{Signed: long, Actual: long[:2*bs]}}, []c09Step{c09RunFrom(len(long), 100, 0)}},
+		{"corpus/bspatch-aligned-run-flip-inner-block", []c09File{{Signed: long, Actual: flipAt(long, 2*bs+10)}}, []c09Step{c09RunFrom(len(long), 0, 0)}},
+		{"corpus/bspatch-small-cache-flip-inner-block", []c09File{{Signed: long, Actual: flipAt(long, 2*bs+10)}, {Signed: tail, Actual: tail}}, []c09Step{onFile(1, c09RunFrom(len(tail), 7, 2)), c09RunFrom(len(long), 100, 2), {Kind: "copy", File: 1}}},
+	}
+	// two signed files whose paths differ only in letter case / only in their directory: each is
+	// checked against its own hashes (nothing damaged; then a flip in one of them only)
+	for _, pp := range [][2]string{{"assets/Data.bin", "assets/data.bin"}, {"a/data.bin", "b/data.bin"}} {
+		if !c09ProbeNames(c.Tmp, pp[:]) {
+			continue
+		}
+		what := "case-only"
+		if pp[0][0] != pp[1][0] {
+			what = "same-basename"
+		}
+		two := func(a0, a1 []byte) []c09File {
+			return []c09File{{Signed: tail, Actual: a0, Path: pp[0]}, {Signed: long, Actual: a1, Path: pp[1]}}
+		}
+		all := []c09Step{{Kind: "copy"}, {Kind: "copy", File: 1}, {Kind: "range", Blk: 1, Span: 1}, onFile(1, c09RunFrom(len(long), 100, 0)), {Kind: "chunks", Cis: []int64{0, 1, 2}}}
+		corpus = append(corpus, []struct {
+			name  string
+			files []c09File
+			steps []c09Step
+		}{
+			{"corpus/paths-" + what + "-pristine", two(tail, long), all},
+			{"corpus/paths-" + what + "-flip-first", two(flipAt(tail, bs+5), long), []c09Step{{Kind: "copy", File: 1}, {Kind: "copy"}, {Kind: "range", File: 1, Blk: 1, Span: 1}}},
+			{"corpus/paths-" + what + "-flip-second", two(tail, flipAt(long, bs+5)), []c09Step{{Kind: "copy"}, {Kind: "copy", File: 1}, {Kind: "range", Blk: 1, Span: 1}}},
+		}...)
 	}
 	for i, cc := range corpus {
 		if err := c.c09EmitSkread(cc.files, cc.steps, cc.name, fmt.Sprintf("corpus%d", i)); err != nil {
@@ -1234,6 +1431,9 @@ func runC09(c *Ctx) error {
 		if err := c.c09RunPair(rc.Fork(), 1000+i, cc.pair, cc.damages, 0); err != nil {
 			return err
 		}
+	}
+	if err := c.c09RunPair(rc.Fork(), 1100, c.c09AllNamesPair(), nil, 0); err != nil {
+		return err
 	}
 	if err := c.c09SigFail(rc.Fork()); err != nil {
 		return err
@@ -1258,12 +1458,20 @@ func runC09(c *Ctx) error {
 		if kind == "bspatch" {
 			kind += "/" + steps[0].Shape
 		}
+		if nf >= 2 && cr.Chance(1, 3) { // paths that a coarser key than the exact path would confuse
+			if fam, names := c.c09DrawNames(cr, nf); fam != "" {
+				for j := range files {
+					files[j].Path = names[j]
+				}
+				kind += "/paths=" + fam
+			}
+		}
 		if err := c.c09EmitSkread(files, steps, classes[steps[0].File]+"/"+kind, fmt.Sprint(i)); err != nil {
 			return err
 		}
 	}
 	// ---- generated: end to end
-	np := c.N(15, 120)
+	np := c.N(16, 120)
 	if c.Tier == "search" {
 		np = 24
 	}
@@ -1278,7 +1486,15 @@ func runC09(c *Ctx) error {
 		n := per
 		switch i % 3 {
 		case 0:
-			pr = c09Targeted(cr)
+			fam, names := "", []string(nil)
+			if i%6 == 3 { // the same relations over paths that differ only by case, directory, a blank ...
+				fam, names = c.c09DrawNames(cr, 4)
+			}
+			if fam != "" {
+				pr = c09NamedPair(cr, fam, names)
+			} else {
+				pr = c09Targeted(cr)
+			}
 		case 1:
 			old, nw, rel := lib.GenPair(cr, lib.PairOpts{MaxFiles: 4, MaxSize: 4 * bs})
 			pr = c09Pair{name: "genpair", old: old, nw: nw, rel: rel}
